@@ -18,7 +18,7 @@ import (
 	. "verifharness/hlib"
 )
 
-func check(c *Ctx, h *animenc.History, fx animenc.Fixes, stream string) {
+func check(c *Ctx, h *animenc.History, stream string) {
 	rng := c.Rng.Fork()
 	o := animenc.Run(h, rng)
 	mode := "al"
@@ -26,7 +26,7 @@ func check(c *Ctx, h *animenc.History, fx animenc.Fixes, stream string) {
 		mode = "st" // the codec hypothesis fails on a written frame: compare the structure only
 		c.Count("correspondence:structure-only")
 	}
-	c.Case(h.CaseLine(mode, fx, o), o.ImplLine(mode))
+	c.Case(h.CaseLine(mode, o), o.ImplLine(mode))
 	c.D.Evaluations++
 	c.Count("stream:" + stream)
 	c.Count(fmt.Sprintf("mode:lossless=%v,mixed=%v", h.Lossless, h.Mixed))
@@ -63,8 +63,6 @@ func check(c *Ctx, h *animenc.History, fx animenc.Fixes, stream string) {
 
 func main() {
 	Main("c18", func(c *Ctx) {
-		fx := animenc.ProbeFixes()
-		c.D.Notes = append(c.D.Notes, fmt.Sprintf("code variant probed (blend test repaired, filler rectangle repaired, ALPH wiring repaired) = %s", fx))
 		c.D.Rule = "encoder sessions in the four Lossless x AllowMixed modes, Quality swept over 0..100, canvas 1x1..16x16, 1..8 AddFrame calls with binary / graded / boundary alpha (and opaque controls), all change kinds and Kmin/Kmax settings of C08; plus qualityToMaxDiff for all 101 qualities and pixelsAreSimilar unit cases; non-trivial = >= 2 inputs, distinct = distinct per-written-frame (full, 1x1, blend, dispose, codec) signature per mode"
 		n, ns := 500, 2000
 		if c.Thorough() {
@@ -72,18 +70,18 @@ func main() {
 		}
 		// corpus: the model witness (transparent then opaque 1x1, lossy)
 		check(c, &animenc.History{W: 1, H: 1, Quality: 75, Frames: []animenc.Frame{
-			{W: 1, H: 1, Pix: []byte{0, 0, 0, 0}, DurMS: 10}, {W: 1, H: 1, Pix: []byte{255, 0, 0, 255}, DurMS: 10}}}, fx, "corpus")
+			{W: 1, H: 1, Pix: []byte{0, 0, 0, 0}, DurMS: 10}, {W: 1, H: 1, Pix: []byte{255, 0, 0, 255}, DurMS: 10}}}, "corpus")
 		// a lossy overflow filler (transparent 1x1 frame blended over an opaque canvas)
 		op := []byte{9, 9, 9, 255, 9, 9, 9, 255, 9, 9, 9, 255, 9, 9, 9, 255}
 		check(c, &animenc.History{W: 2, H: 2, Quality: 50, Frames: []animenc.Frame{
-			{W: 2, H: 2, Pix: op, DurMS: 0xFFFFFF}, {W: 2, H: 2, Pix: op, DurMS: 10}}}, fx, "corpus")
+			{W: 2, H: 2, Pix: op, DurMS: 0xFFFFFF}, {W: 2, H: 2, Pix: op, DurMS: 10}}}, "corpus")
 		classes := []int{animenc.ClassBinary, animenc.ClassGraded, animenc.ClassBoundary, animenc.ClassBinary, animenc.ClassOpaque}
 		for i := 0; i < n; i++ {
 			rng := c.Rng.Fork()
 			lossless, mixed := i&1 == 1, i&2 == 2
 			q := rng.Pick(0, 1, 10, 25, 50, 75, 90, 99, 100, rng.Intn(101))
 			h := animenc.RandHistory(rng, 16, lossless, mixed, q, classes)
-			check(c, h, fx, "random")
+			check(c, h, "random")
 		}
 		for q := 0; q <= 100; q++ {
 			c.Case(fmt.Sprintf("qmd %d", q), fmt.Sprintf("%d", animation.VerifQualityToMaxDiff(q)))
